@@ -710,7 +710,7 @@ class Doman(_InstallWrapper):
     insoptions_default = "-m0644"
 
     arg_parser = IpcArgumentParser(parents=(_InstallWrapper.arg_parser,))
-    arg_parser.add_argument("-i18n", action="store_true", default="")
+    arg_parser.add_argument("-i18n", default=None)
 
     detect_lang_re = re.compile(r"^(\w+)\.([a-z]{2}([A-Z]{2})?)\.(\w+)$")
     valid_mandir_re = re.compile(r"man[0-9n](f|p|pm)?$")
@@ -733,7 +733,7 @@ class Doman(_InstallWrapper):
             name = basename
             mandir = f"man{ext[1:]}"
 
-            if self.language_override and self.opts.i18n:
+            if self.language_override and self.opts.i18n is not None:
                 mandir = pjoin(self.opts.i18n, mandir)
             elif self.language_detect:
                 match = self.detect_lang_re.match(basename)
